@@ -101,6 +101,14 @@ Theorem da_lookup_refines : forall (V : Type) (veqb : V -> V -> bool),
 Proof. exact @DencoDAProofs.da_lookup_refines. Qed.
 Print Assumptions da_lookup_refines.
 
+(* ... with any fuel above the parameter nesting depth of the trie (the fuel the correspondence run uses) *)
+Theorem da_lookup_refines_fuel : forall (V : Type) (veqb : V -> V -> bool),
+  (forall a b, veqb a b = true -> a = b) ->
+  forall (pats : list (bytes * V)) (d : da V) f, repr_ok veqb pats d = true -> pdepth (model_trie pats) < f ->
+  forall p, da_router_lookup f pats d p = router_lookup pats p.
+Proof. exact @DencoDAProofs.da_lookup_refines_fuel. Qed.
+Print Assumptions da_lookup_refines_fuel.
+
 (* total: on an array accepted by the checker no path - arbitrary bytes, the reserved ones included -
    makes lookup panic (every slice access of the model is checked) or run out of fuel, and the answer
    is the best match. The hypothesis repr_ok is established per instance by the correspondence run on
